@@ -399,18 +399,44 @@ func main() {
 	n := flag.Int("n", 3000, "number of cases")
 	corpus := flag.String("corpus", "/verif/corpus/C07", "regression corpus directory")
 	par := flag.Int("par", 14, "worker processes")
+	replay := flag.String("replay", "", "replay file written by the check: re-run its input")
 	one := flag.String("one", "", "run a single job given as JSON {c,s,x} in-process and print the result")
 	flag.Parse()
 	if *one != "" {
+		if strings.HasPrefix(*one, "@") { // job read from a file
+			b, _ := os.ReadFile((*one)[1:])
+			*one = string(b)
+		}
 		fmt.Println(handle(*one))
 		return
 	}
 
-	rng := vlib.NewRng(vlib.Seed())
-	jobs := loadCorpus(*corpus)
-	g := newGen(rng)
-	jobs = append(jobs, g.discoveryCrashes...)
-	jobs = append(jobs, g.generate(*n-len(jobs))...)
+	var jobs []job
+	if *replay != "" {
+		// re-run the implementation on the input recorded in a replay file
+		var obj struct {
+			Case struct {
+				Kind string
+				Desc struct {
+					Component string
+					Input     string
+					Arg       int
+				}
+			}
+		}
+		b, err := os.ReadFile(*replay)
+		if err != nil || json.Unmarshal(b, &obj) != nil || obj.Case.Desc.Component == "" {
+			fmt.Println("cannot read replay file", *replay)
+			os.Exit(2)
+		}
+		jobs = []job{{C: obj.Case.Desc.Component, S: obj.Case.Desc.Input, X: obj.Case.Desc.Arg, Kind: obj.Case.Kind, Tags: []string{"replay"}}}
+	} else {
+		rng := vlib.NewRng(vlib.Seed())
+		jobs = loadCorpus(*corpus)
+		g := newGen(rng)
+		jobs = append(jobs, g.discoveryCrashes...)
+		jobs = append(jobs, g.generate(*n-len(jobs))...)
+	}
 
 	inputs := make([]string, len(jobs))
 	for i, j := range jobs {
